@@ -63,6 +63,17 @@ func genPacket(r *gen.Rand) (p packet.Packet, pay []byte, hasPay bool) {
 	}
 }
 
+// payloadOf is the reference payload extraction for the packets genPacket builds.
+func payloadOf(p *packet.Packet) ([]byte, bool) {
+	if p[3]&0x10 == 0 {
+		return nil, false
+	}
+	if p[3]&0x20 == 0 {
+		return p[4:], true
+	}
+	return p[5+int(p[4]):], true
+}
+
 func hash(b []byte) uint32 {
 	h := uint32(2166136261)
 	for _, x := range b {
@@ -177,6 +188,8 @@ func history(c *mon.Ctx, r *gen.Rand) {
 		}
 		return true
 	}
+	var prevPkt packet.Packet
+	havePrev := false
 	n := 1 + r.Intn(24)
 	for step := 0; step < n; step++ {
 		if r.Chance(3) && !other() {
@@ -186,6 +199,13 @@ func history(c *mon.Ctx, r *gen.Rand) {
 		switch {
 		case op < 9:
 			p, pay, hasPay := genPacket(r)
+			if havePrev && r.Chance(5) {
+				// the byte-identical packet once more (same counter, same content): it is a packet like any other
+				p = prevPkt
+				pay, hasPay = payloadOf(&p)
+				events["identical_packet_repeated"] = true
+			}
+			prevPkt, havePrev = p, true
 			snap := p
 			pusi := p[1]&0x40 != 0
 			hist = append(hist, fmt.Sprintf("WritePacket(pusi=%v afc=%d aflen=%d payload=%d)", pusi, p[3]>>4&3, afl(&p), len(pay)))
